@@ -31,7 +31,7 @@ ASSUMPTIONS = [
 ]
 OUTSIDE = ["bit-level reproducibility of numpy generators across numpy versions", "hash-randomisation effects other than through set(...) of strings"]
 RULE = "each path is one execution of an entry point with all random draws symbolic; a finding is a draw whose stream is not the given generator."
-BUDGET_S = {"quick": 280, "thorough": 1700}
+BUDGET_S = {"quick": 600, "thorough": 3000}
 TASK_QUOTA = 60
 VALIDATE_OUTCOME = False  # several findings per run are reported in stream order, which differs between model and real numpy
 
